@@ -166,7 +166,7 @@ where
                 i += 1;
             }
             while pivot_value <= self[j] {
-                if j == 1 {
+                if j <= 1 {
                     break;
                 }
                 j -= 1;
